@@ -1231,6 +1231,109 @@ def hidden_child_class(cls, attr):
     return found.pop() if len(found) == 1 else None
 
 
+_ARRAY_SHAPES = {}
+
+
+def array_shape(ext):
+    """an array class below SerializableArray as the model sees it: (tags of read-only text children written in FRONT of the
+    entries, reasons why it cannot be modelled).  Recognised to_node override (everything else is a reason):
+        anode = super(C, self).to_node(doc, tag, ns_key=ns_key, parent=parent, ...)
+        if anode is None: return None
+        n = create_text_node(doc, 'TAG' [if ns_key is None else '{}:TAG'.format(ns_key)], <text>, parent=anode)
+        anode.remove(n); anode.insert(0, n)
+        return anode
+    (from_node of SerializableArray reads the child_tag children only, so such a child is derived, not stored.)"""
+    if ext is None or ext in _ARRAY_SHAPES:
+        return _ARRAY_SHAPES.get(ext, ([], []))
+    front, reasons = [], []
+    ov = array_overrides(ext)
+    try:
+        if 'from_node' in ov:
+            raise Unrecognised('from_node is overridden')
+        if 'to_node' in ov:
+            from sarpy.io.xml.base import SerializableArray
+            b = next(b for b in ext.__mro__ if b is not SerializableArray and 'to_node' in b.__dict__)
+            fn = _fn_ast(b.__dict__['to_node'])
+            if fn is None:
+                raise Unrecognised('to_node: source not available')
+            node_var, pending, moved = None, {}, {}
+            done = False
+            for st in _body(fn):
+                if done:
+                    raise Unrecognised('to_node: statements after return')
+                if isinstance(st, ast.Assign) and len(st.targets) == 1 and isinstance(st.targets[0], ast.Name) and _is_super_call(st.value, 'to_node') \
+                        and node_var is None:
+                    c = st.value
+                    kw = {k.arg: k.value for k in c.keywords}
+                    if len(c.args) >= 2 and _is_name(c.args[0], 'doc') and _is_name(c.args[1], 'tag') and _is_name(kw.get('ns_key'), 'ns_key') and \
+                            _is_name(kw.get('parent'), 'parent'):
+                        node_var = st.targets[0].id
+                        continue
+                if node_var is None:
+                    raise Unrecognised('to_node: work before the generic array writer')
+                if isinstance(st, ast.If) and not st.orelse and len(st.body) == 1 and isinstance(st.body[0], ast.Return) and \
+                        isinstance(st.test, ast.Compare) and _is_name(st.test.left, node_var) and isinstance(st.test.ops[0], ast.Is):
+                    continue                                       # an empty array writes nothing
+                if isinstance(st, ast.Assign) and len(st.targets) == 1 and isinstance(st.targets[0], ast.Name) and isinstance(st.value, ast.Call) and \
+                        _is_name(st.value.func, 'create_text_node'):
+                    c = st.value
+                    kw = {k.arg: k.value for k in c.keywords}
+                    tagx = c.args[1] if len(c.args) >= 2 else None
+                    if isinstance(tagx, ast.IfExp):
+                        tagx = tagx.body
+                    if _const_str(tagx) is not None and _is_name(kw.get('parent'), node_var):
+                        pending[st.targets[0].id] = tagx.value
+                        continue
+                if isinstance(st, ast.Expr) and isinstance(st.value, ast.Call) and isinstance(st.value.func, ast.Attribute) and \
+                        _is_name(st.value.func.value, node_var):
+                    c = st.value
+                    if c.func.attr == 'remove' and len(c.args) == 1 and isinstance(c.args[0], ast.Name) and c.args[0].id in pending:
+                        moved[c.args[0].id] = 'removed'
+                        continue
+                    if c.func.attr == 'insert' and len(c.args) == 2 and isinstance(c.args[0], ast.Constant) and c.args[0].value == 0 and \
+                            isinstance(c.args[1], ast.Name) and moved.get(c.args[1].id) == 'removed':
+                        moved[c.args[1].id] = 'front'
+                        front.insert(0, pending[c.args[1].id])
+                        continue
+                if isinstance(st, ast.Return) and _is_name(st.value, node_var):
+                    done = True
+                    continue
+                raise Unrecognised('to_node: unrecognised statement at line %d' % st.lineno)
+            if not done or any(moved.get(v) != 'front' for v in pending):
+                raise Unrecognised('to_node: a text child is not moved to the front')
+    except Unrecognised as e:
+        reasons.append('array class overrides %s in a shape the translator does not recognise (%s)' % ('/'.join(ov), e))
+        front = []
+    _ARRAY_SHAPES[ext] = (front, reasons)
+    return _ARRAY_SHAPES[ext]
+
+
+# Hook for the C05X builder: classes whose to_node / from_node are VALUE codecs (they re-encode numbers, they are not a
+# re-arrangement of rows).  They stay opaque in this model; once Spec.XmlFmt carries a model of the codec with its own round-trip
+# lemma (equivalence "as coefficient arrays with absent terms read as zero"), the pairing below is where it plugs in: the walk
+# already pairs each of them with its XSD type (listed per run in `codec_hook_pairs`).  Matched by class name along the MRO.
+CODEC_HOOKS = {
+    'Poly1DType': 'polynomial coefficient array (order1 attribute + Coef elements with exponent1)',
+    'Poly2DType': 'polynomial coefficient array (order1/order2 attributes + Coef elements with exponent1/exponent2)',
+    'LineType': 'indexed array of Endpoint elements (CPHD GeoInfo)',
+    'PolygonType': 'indexed array of Vertex elements (CPHD GeoInfo)',
+    'LUTInfoType': 'lookup-table value arrays (SIDD)',
+    '_CustomType': 'filter coefficient array (SIDD)',
+}
+
+
+def codec_hook(cls):
+    from sarpy.io.xml.base import Serializable
+    if not overrides(cls):
+        return None
+    for b in cls.__mro__:
+        if b is Serializable:
+            break
+        if b.__name__ in CODEC_HOOKS and ('to_node' in b.__dict__ or 'from_node' in b.__dict__):
+            return CODEC_HOOKS[b.__name__]
+    return None
+
+
 _SHAPES = {}
 
 
@@ -1239,6 +1342,7 @@ class Shape:
     cannot be modelled (empty = modellable)"""
     def __init__(self):
         self.rows, self.divert_if, self.divert_unless, self.reasons, self.notes = [], [], [], [], []
+        self.hook = None
 
 
 def class_shape(cls):
@@ -1285,7 +1389,12 @@ def class_shape(cls):
             sh.rows = out
             sh.divert_if, sh.divert_unless = dif, dun
         except Unrecognised as e:
-            sh.reasons.append('class overrides %s in a shape the translator does not recognise (%s)' % ('/'.join(ov), e))
+            hook = codec_hook(cls)
+            if hook:
+                sh.reasons.append('class overrides %s with a value codec: %s - hook for the C05X model' % ('/'.join(ov), hook))
+                sh.hook = hook
+            else:
+                sh.reasons.append('class overrides %s in a shape the translator does not recognise (%s)' % ('/'.join(ov), e))
     for r in sh.rows:
         if r.kind == 'other':
             sh.reasons.append('field %s is not descriptor-driven (%s)' % (r.field, r.descr))
@@ -1668,11 +1777,17 @@ class Walker:
         table = []
         if r.size_attr:
             table.append(dict(tag=r.size_attr, kind='attr', field='size', required=True))
+        front, areasons = array_shape(r.ext)
+        for ft in front:
+            # a read-only text child the array class writes in front of its entries (SegmentList/NumSegments)
+            ftq = q(nsof(ctag), ft)
+            table.append(dict(tag=ftq, kind='derived', field=ft, required=True))
+            p.rowinfo.append((ftq, 'leaf', None))
         table.append(dict(tag=ctag, kind='multi', field='array', required=True))
         p.table = table
-        if array_overrides(ext):
+        if areasons:
             p.status = 'outside_fragment'
-            p.reasons = ['array class overrides ' + '/'.join(array_overrides(ext))]
+            p.reasons = list(areasons)
             return
         try:
             groups = flatten_model(t)
@@ -1841,6 +1956,9 @@ def generate(out_path, write=True):
             cnt[p.status] += 1
             rec = {'version': p.label, 'class': p.cls, 'type': p.type_name, 'path': p.path, 'status': p.status, 'reasons': p.reasons,
                    'notes': p.notes}
+            hk = _SHAPES[p.pycls].hook if p.pycls in _SHAPES else None
+            if hk and p.status == 'outside_fragment':
+                rec['hook'] = hk
             summary['pairs'].append(rec)
             if p.status == 'outside_fragment' or p.model is None or p.model[1] is None:
                 listing.append('("%s", "%s", "%s", "%s")' % (p.label, p.cls, p.type_name, '; '.join(p.reasons).replace('"', "'")[:300]))
@@ -1944,6 +2062,16 @@ def generate(out_path, write=True):
         if not (os.path.exists(closed_path) and open(closed_path).read() == closed_text):
             with open(closed_path, 'w') as f:
                 f.write(closed_text)
+    summary['codec_hook_pairs'] = sorted({'%s ~ %s [%s]: %s' % (r['class'], r['type'], r['version'], r['hook']) for r in summary['pairs'] if r.get('hook')})
+    summary['inside_fragment'] = sum(1 for r in summary['pairs'] if r['status'] != 'outside_fragment')
+    summary['outside_by_reason'] = {}
+    for r in summary['pairs']:
+        if r['status'] == 'outside_fragment':
+            why = ('value codec (hook for C05X)' if r.get('hook') else
+                   'SICD 0.x content the current class does not model' if any(x.startswith('SICD 0.x') for x in r['reasons']) else
+                   'override shape not recognised' if any('does not recognise' in x for x in r['reasons']) else
+                   'class paired with a simple type' if any('simple type' in x for x in r['reasons']) else 'other')
+            summary['outside_by_reason'][why] = summary['outside_by_reason'].get(why, 0) + 1
     summary.update({
         'obligations_conforming': len(conform_thms), 'obligations_weak': len(weak_thms),
         'negation_witnesses': len(neg_thms), 'expected_to_fail': failing,
